@@ -88,7 +88,7 @@ def main(argv=None):
             break
         if stop_file and os.path.exists(stop_file):
             break  # enough violations have been recorded by other blocks: the verdict is settled
-        faulthandler.dump_traceback_later(300, exit=True)
+        faulthandler.dump_traceback_later(120, exit=True)
         try:
             case, col, log, v = run_one(world, prop, a.seed, index, a.tier)
         except HarnessError as e:
